@@ -349,7 +349,18 @@ func (r *runner) biter(h int, dir string, n, pos int) {
 	if b.tip != nil {
 		sent = math.MaxUint32
 	}
-	rec := tr.E{"op": "biter", "h": h, "dir": dir, "n": n, "pos": pos, "len": L, "sent": numI64(sent)}
+	// TLC's integers are 32 bit; the specification uses n only through min(max(n, 0), Len), so an
+	// n beyond +-2^30 is logged clamped (same meaning) with the real argument beside it (nreal)
+	cn := n
+	if cn > 1<<30 {
+		cn = 1 << 30
+	} else if cn < -(1 << 30) {
+		cn = -(1 << 30)
+	}
+	rec := tr.E{"op": "biter", "h": h, "dir": dir, "n": cn, "pos": pos, "len": L, "sent": numI64(sent)}
+	if cn != n {
+		rec["nreal"] = numI64(int64(n))
+	}
 	r.emit(rec, func() (interface{}, bool) {
 		if b.big != nil {
 			s := make([]int64, L)
@@ -547,8 +558,16 @@ func (r *runner) arbitraryBytes(per int) {
 		k++
 	}
 	bad := []int{1024, 1025, 2047, 4096, 32767, 32768, 40000, 65535, 64512}
+	lens := make([]int, 0, 140)
 	for L := 0; L <= 130; L++ {
+		lens = append(lens, L)
+	}
+	lens = append(lens, 131, 132, 192, 255, 256, 257, 1024, 2048, 65536, 65537)
+	for _, L := range lens {
 		for rep := 0; rep < per; rep++ {
+			if L > 4096 && rep > 0 {
+				break
+			}
 			buf := make([]byte, L)
 			switch {
 			case L%2 == 1 || L > 128:
@@ -658,6 +677,14 @@ func (r *runner) blockScenario(kind string, v int64, src string) {
 	r.bgetn(1, "f", l-1)
 	r.biter(1, "r", l, 1)
 	r.biter(1, "f", 2000, 0)
+	for _, dir := range []string{"f", "r"} { // 64-bit extremes of n
+		pos := []int{0, 1, 3, 7}[r.rng.Intn(4)]
+		ex := []int{math.MaxInt, math.MaxInt - 1, math.MaxInt - pos, math.MaxInt - pos + 1, math.MinInt, math.MinInt + 1, 1 << 40, -(1 << 40)}
+		r.biter(1, dir, ex[r.rng.Intn(len(ex))], pos)
+	}
+	if r.rng.Intn(8) == 0 {
+		r.bgetn(1, []string{"f", "r"}[r.rng.Intn(2)], 1<<20)
+	}
 	// a second block: a neighbour or the same block number, a few members
 	v2 := v + 1024*int64(r.rng.Intn(3)-1)
 	if x, ok := clip(v2); ok {
@@ -702,7 +729,7 @@ func (r *runner) blockScenario(kind string, v int64, src string) {
 		}
 		for _, hs := range lists {
 			dir := []string{"f", "r"}[r.rng.Intn(2)]
-			n := []int{2, l, l + 1, l + l2, l + l2 + 1, l + l2 + l3 - 1, l + l2 + l3, l + l2 + l3 + 7, 1023, 1024, 3000}[r.rng.Intn(11)]
+			n := []int{2, l, l + 1, l + l2, l + l2 + 1, l + l2 + l3 - 1, l + l2 + l3, l + l2 + l3 + 7, 1023, 1024, 3000, 1 << 20}[r.rng.Intn(12)]
 			r.lgetn(kind, hs, dir, n)
 		}
 	}
